@@ -268,6 +268,53 @@ pub fn reduce_structurally<P: Property>(p: &P, case: P::Case, key: &str, fail: F
                 }
             }
         }
+        // strings: try empty, first half, second half
+        let mut strings = Vec::new();
+        fn collect(v: &serde_json::Value, path: &mut Vec<String>, out: &mut Vec<(Vec<String>, String)>) {
+            match v {
+                serde_json::Value::String(s) if s.len() > 2 => out.push((path.clone(), s.clone())),
+                serde_json::Value::Array(a) => {
+                    for (i, x) in a.iter().enumerate() {
+                        path.push(i.to_string());
+                        collect(x, path, out);
+                        path.pop();
+                    }
+                }
+                serde_json::Value::Object(o) => {
+                    for (k, x) in o {
+                        path.push(k.clone());
+                        collect(x, path, out);
+                        path.pop();
+                    }
+                }
+                _ => {}
+            }
+        }
+        collect(&json, &mut Vec::new(), &mut strings);
+        for (path, sv) in strings {
+            let chars: Vec<char> = sv.chars().collect();
+            let cands = [String::new(), chars[..chars.len() / 2].iter().collect::<String>(), chars[chars.len() / 2..].iter().collect::<String>(), chars[..chars.len() - 1].iter().collect::<String>()];
+            for cs in cands {
+                if budget == 0 {
+                    break 'outer;
+                }
+                let mut cand = json.clone();
+                match at(&mut cand, &path) {
+                    Some(x @ serde_json::Value::String(_)) => *x = serde_json::Value::String(cs),
+                    _ => continue,
+                }
+                let Ok(c) = serde_json::from_value::<P::Case>(cand) else { continue };
+                if !p.in_domain(&c) {
+                    continue;
+                }
+                budget -= 1;
+                if let Some(f) = run_case(p, &c).failures.into_iter().find(|f| f.key == key) {
+                    best = c;
+                    best_f = f;
+                    continue 'outer;
+                }
+            }
+        }
         break;
     }
     (best, best_f)
